@@ -94,6 +94,22 @@ def main():
                         break
                 if fail:
                     break
+        if fail is None and a.fn == 'C09':
+            # --limit in the other two modes: exactly N lines; random_walk (re-seeded 1, 2, ...) is the head of a longer run
+            for mode in ('random_walk', 'honeywords'):
+                long_run = lines_of(run(d, ['-r', 'Default', '-m', mode, '-n', '40']))
+                for n in (1, 7, 25):
+                    got = lines_of(run(d, ['-r', 'Default', '-m', mode, '-n', str(n)]))
+                    cases += 1
+                    bad = len(got) != n or (mode == 'random_walk' and got != long_run[:n])
+                    if len(long_run) != 40:
+                        bad = True
+                    if bad:
+                        fail = {'args': ['-r', 'Default', '-m', mode, '-n', str(n)], 'lines_written': len(got), 'expected_lines': n,
+                                'lines_of_the_-n_40_run': len(long_run), 'got_head': got[:3], 'expected_head': long_run[:3]}
+                        break
+                if fail:
+                    break
         if a.fn == 'C17':
             fail = None
             def prince(args):
@@ -125,6 +141,19 @@ def main():
                 if in_file != ref_p[:n]:
                     fail = {'program': 'prince_ling.py', 'args': ['-s', str(n), '-o', 'prince_out.txt'], 'what': 'file differs from stdout list',
                             'file_lines': len(in_file)}
+            if fail is None:
+                # the output file already exists and is longer than the new list; and a list of more than 10 000 words
+                for n, note in ((15, 'the output file existed and was longer'), (12000, 'more than 10000 words')):
+                    long_ref = ref_p if n <= len(ref_p) else prince(['-r', 'Default', '-s', str(n)])
+                    prince(['-r', 'Default', '-s', str(n), '-o', 'prince_out.txt'])
+                    with open(os.path.join(d, 'prince_out.txt'), encoding='utf-8') as fh:
+                        in_file = lines_of(fh.read())
+                    cases += 1
+                    if in_file != long_ref[:n]:
+                        fail = {'program': 'prince_ling.py', 'args': ['-s', str(n), '-o', 'prince_out.txt'], 'what': 'file differs from the stdout list (%s)' % note,
+                                'file_lines': len(in_file), 'expected_lines': n,
+                                'first_difference': next((i for i, (x, y) in enumerate(zip(in_file, long_ref)) if x != y), min(len(in_file), n))}
+                        break
         if fail is None and a.fn == 'C14':
             # flags are taken from the save file on --load (the session file of a fresh run is written at start-up)
             n = 1500
